@@ -121,6 +121,16 @@ func (e *verifC11Env) quiesce() error {
 		if time.Now().After(deadline) {
 			return errors.New("world did not quiesce within 20s")
 		}
+		// a session whose write loop has ended (evicted, account deleted) no longer drains its queue: it is gone
+		for _, vs := range w.sess {
+			if !vs.dead {
+				select {
+				case <-vs.done:
+					vs.dead = true
+				default:
+				}
+			}
+		}
 		if !w.chansEmpty() {
 			stable = 0
 			runtime.Gosched()
